@@ -103,7 +103,10 @@ def parse_dump(path, var="st"):
         for k, v in _KV.findall(block[i:]):
             if v.startswith("<<"):
                 inner = v[2:-2].strip()
-                rec[k] = [int(x) for x in inner.split(",")] if inner else []
+                try:
+                    rec[k] = [int(x) for x in inner.split(",")] if inner else []
+                except ValueError:
+                    pass
             elif v.startswith('"'):
                 rec[k] = v[1:-1]
             elif v in ("TRUE", "FALSE"):
